@@ -486,6 +486,9 @@ def symx_mod(fmt, args):
         a = tup[k]
         k += 1
         t, flags, width = m.group('type'), m.group('flags') or '', int(m.group('width') or 0)
+        if type(a).__name__ == 'SFloat' and t == 'g' and m.group('prec') and fmt == m.group(0):
+            from . import lia
+            return lia.SDecG(a, int(m.group('prec')))          # the whole text is one '%.<P>g' rendering of a symbolic double
         if type(a).__name__ in ('LInt', 'SFloat', 'SFloatQ') or (isinstance(a, core.SInt) and t in 'sd'):
             # decimal text of a symbolic number (error / log messages): an indexed placeholder, as SInt.__str__ does
             out = out + core._placeholder(a)
